@@ -79,6 +79,16 @@ def gen_case(rng, tier):
             faults.append(f)
     if len(prim) > 1 and rng.random() < 0.3:
         faults.append({'source': '*', 'kind': 'absent'})
+    for s in b['sources']:
+        if s['supplemental'] and rng.random() < 0.7:
+            # the supplemental source cannot be loaded (for good, or once): it is reported like any other source, every primary row is
+            # still in the report, and the rules either all had its rows or all had none
+            k = rng.choice(['absent', 'EACCES', 'EIO', 'EIO-once', 'EISDIR'])
+            f = {'source': s['name'], 'file': b['base'] + s['file'], 'kind': k, 'supplemental': True}
+            if k in ('EIO', 'EIO-once'):
+                f['after'] = rng.randint(0, max(1, len(files[b['base'] + s['file']]) - 1))
+                f['errno'] = rng.choice(['EIO', 'ESTALE', 'EAGAIN'])
+            faults.append(f)
     case = {'budget': b, 'faults': faults, 'cfg': b['base'] + 'config'}
     if rng.random() < 0.2:
         # parts of the budget are symbolic links (a synced folder, a shared rules file): a link is the file it points to
@@ -103,10 +113,10 @@ class _Done(Exception):
     pass
 
 
-def model_report(case, failing, world, ctlp):
+def model_report(case, failing, world, ctlp, no_supp=False):
     b = case['budget']
     txns = rp.expected_transactions(b, failing)
-    supp = rp.supplemental_rows(b)
+    supp = {} if no_supp else rp.supplemental_rows(b)
     kind = b['rules_kind']
     mode = b.get('rule_mode') or 'first_match'
     csv_path = os.path.join(world, b['base'] + 'config/merchant_categories.csv')
@@ -313,6 +323,52 @@ def execute(case, scratch):
         # ---- one failing source at a time
         for f in case['faults']:
             util.restore(root, snap)
+            if f.get('supplemental'):
+                reads = apply_fault(root, f, lsnap)
+                count['fired.supplemental-' + f['kind']] = count.get('fired.supplemental-' + f['kind'], 0) + 1
+                try:
+                    m_without = model_report(case, (), root, ctlp, no_supp=True)
+                    m_with = model_report(case, (), root, ctlp) if f['kind'] == 'EIO-once' else None
+                except ModelUnavailable:
+                    count['discarded.model_unavailable'] = count.get('discarded.model_unavailable', 0) + 1
+                    continue
+                if not m_without['txns']:
+                    continue
+                fmt = 'json' if util.digest(f)[0] in '01234567' else 'html'
+                r = run_up(fmt, reads)
+                text = r.out + '\n' + r.err
+                log.append(['supp-fault', f, fmt, r.exit, util.sha(util.norm_text(text, root))])
+                if f['kind'] in ('EIO', 'EIO-once') and not any(e.get('k') == 'readfault' for e in r.events):
+                    continue
+                if r.exit != 0:
+                    add('ISO', 'aborted', 'supplemental-' + f['kind'], 'supplemental source %s cannot be loaded (%s) and `tally up` exits %d: %s'
+                        % (f['source'], f['kind'], r.exit, text.strip().split('\n')[-1][:300]), f)
+                    continue
+                diffs = {}
+                for label, mdl in (('without its rows', m_without), ('with its rows', m_with)):
+                    if mdl is None:
+                        continue
+                    if fmt == 'json':
+                        doc = parse_json_report(r.out)
+                        diffs[label] = [('no-report', 'no JSON document')] if doc is None else compare_json(mdl, doc)
+                    else:
+                        data = None
+                        if os.path.exists(html_path):
+                            with open(html_path, 'r', encoding='utf-8') as fh:
+                                data = rp.extract_spending_data(fh.read())
+                        diffs[label] = [('no-report', 'no HTML report')] if data is None else compare_html(mdl, data)
+                if all(diffs.values()):
+                    what, w = diffs['without its rows'][0]
+                    add('ISO', what, 'supplemental-' + f['kind'], 'supplemental source %s cannot be loaded (%s): the report is neither the one the rules give '
+                        'without its rows (%s)%s' % (f['source'], f['kind'], w, (' nor the one with them (%s)' % diffs['with its rows'][0][1])
+                                                     if 'with its rows' in diffs else ''), f)
+                used = not diffs.get('with its rows', [1])
+                if f['kind'] != 'EIO-once' or not used:
+                    named = [ln for ln in text.split('\n') if f['source'].lower() in ln.lower() and NOTICE.search(ln)]
+                    if not named and '-q' not in r.argv if hasattr(r, 'argv') else not named:
+                        add('REP', 'not-named', 'supplemental-' + f['kind'], 'supplemental source %s cannot be loaded (%s) but no output line names it '
+                            'with a failure notice' % (f['source'], f['kind']), f)
+                continue
             if f['source'] == '*':
                 failing = [s['name'] for s in prim]
                 for s in prim:
